@@ -40,6 +40,8 @@ def run(P, R, tier, cfg):
     for fn in sorted(P.fns.values(), key=lambda f: f.name):
         if fn.impl_self != BE or fn.kind != "method":
             continue
+        if P.absorbed(fn):
+            continue            # `remember_verdict(&mut self, key, proven)` has no contract of its own: it is part of the query function it was split out of
         writes = [c for c in fn.calls() if c.resolved == GM + "::cache_result" and c.bb in fn.normal_blocks()]
         reads = [c for c in fn.calls() if c.resolved == GM + "::is_cached" and c.bb in fn.normal_blocks()]
         if not writes:
